@@ -15358,22 +15358,24 @@ let dRead f plen =
   read_loop big_fuel f plen
 
 (** val erun_loop :
-    decompressor -> n list -> (n list * rres) list * decompressor **)
+    decompressor -> n list -> (n list * rres) list -> (n list * rres)
+    list * decompressor **)
 
-let rec erun_loop f = function
-| [] -> ([], f)
-| p :: rest ->
-  let (p0, r) = dRead f p in
-  let (f0, bytes) = p0 in
-  (match r with
-   | ROk -> let (l, f1) = erun_loop f0 rest in (((bytes, r) :: l), f1)
-   | _ -> (((bytes, r) :: []), f0))
+let rec erun_loop f reads acc =
+  match reads with
+  | [] -> ((frev acc), f)
+  | p :: rest ->
+    let (p0, r) = dRead f p in
+    let (f0, bytes) = p0 in
+    (match r with
+     | ROk -> erun_loop f0 rest ((bytes, r) :: acc)
+     | _ -> ((frev ((bytes, r) :: acc)), f0))
 
 (** val erun_ext :
     n -> n list list -> terminal -> n list -> (n list * rres) list * n **)
 
 let erun_ext bufsize cs t0 reads =
-  let (l, f) = erun_loop (newReader bufsize cs t0) reads in
+  let (l, f) = erun_loop (newReader bufsize cs t0) reads [] in
   (l, f.rBuf.consumed)
 
 (** val erun :
